@@ -174,6 +174,12 @@ class C02(Campaign):
 
         prog = sc["programs"][0]
         sub = make_subclass(rnd, prog, "S0", "simgen_s0")
+        # an event that is named ONLY on a transition the subclass adds to an inherited state
+        # (``Base.s1.to(x, event="hop")``): a declared event of the subclass like the others
+        inh = [x["id"] for x in prog["states"] if not x.get("final")]
+        sub["trans"].append({"src": rnd.choice(inh), "dst": rnd.choice([x["id"] for x in sub["states"]]),
+                             "events": ["hop"]})
+        sub["events"].append("hop")
         new_events = [e for e in sub["events"] if e not in prog["events"]]
         roles = ["machine", "model"] + list(sub["listeners"])
         for e in new_events + [rnd.choice(sub["events"])]:
@@ -193,7 +199,8 @@ class C02(Campaign):
         extra = []
         for o in sc["ops"][1:]:
             if o["op"] == "send" and new_events and rnd.random() < 0.4:
-                extra.append({"op": "send", "inst": o["inst"], "event": rnd.choice(new_events), "style": "send"})
+                extra.append({"op": "send", "inst": o["inst"], "event": rnd.choice(new_events),
+                              "style": rnd.choice(["send", "call", "events", "allowed"])})
             extra.append(o)
         sc["ops"] = sc["ops"][:1] + extra
         for g in sc["gv"].values():
